@@ -1,3 +1,27 @@
+//! vx-pwm: checkers for the matrix-conversion properties C09 and C10.  Invoked by /verif/bin/check.
+
+mod pm;
+
+mod c09;
+mod c10;
+
 fn main() {
-    vx_core::cli::main(|_prop, _ctx, _rep| false, |_prop, _ctx, _rep, _case| false);
+    vx_core::cli::main(
+        |prop, ctx, rep| {
+            match prop {
+                "C09" => c09::run(ctx, rep),
+                "C10" => c10::run(ctx, rep),
+                _ => return false,
+            }
+            true
+        },
+        |prop, ctx, rep, case| {
+            match prop {
+                "C09" => c09::replay(ctx, rep, case),
+                "C10" => c10::replay(ctx, rep, case),
+                _ => return false,
+            }
+            true
+        },
+    );
 }
